@@ -246,7 +246,7 @@ class CoAPParser(HeaderParser):
                     
                     # option length
                     option_length_bytes: int = field_value.length//8
-                    if option_length_bytes < 12:
+                    if option_length_bytes < 13:
                         unparsed_fields.append((CoAPFields.OPTION_LENGTH, Buffer(content=option_length_bytes.to_bytes(length=1, byteorder='little'), length=4, padding=Padding.LEFT)))
                     elif option_length_bytes < 269:   
                         unparsed_fields.append((CoAPFields.OPTION_LENGTH, Buffer(content=(13).to_bytes(length=1, byteorder='little'), length=4, padding=Padding.LEFT)))
@@ -254,19 +254,20 @@ class CoAPParser(HeaderParser):
                         unparsed_fields.append((CoAPFields.OPTION_LENGTH, Buffer(content=(14).to_bytes(length=1, byteorder='little'), length=4, padding=Padding.LEFT)))
                     
                     # option delta extended
-                    if option_delta > 13 and option_delta < 269:
+                    if option_delta > 12 and option_delta < 269:
                         unparsed_fields.append((CoAPFields.OPTION_DELTA_EXTENDED, Buffer(content=(option_delta-13).to_bytes(length=1, byteorder='little'), length=8, padding=Padding.LEFT)))
                     elif option_delta > 268:
-                        unparsed_fields.append((CoAPFields.OPTION_DELTA_EXTENDED, Buffer(content=(option_delta-269).to_bytes(length=2, byteorder='little'), length=16, padding=Padding.LEFT)))
+                        unparsed_fields.append((CoAPFields.OPTION_DELTA_EXTENDED, Buffer(content=(option_delta-269).to_bytes(length=2, byteorder='big'), length=16, padding=Padding.LEFT)))
                         
                     # option length extended
-                    if option_length_bytes > 11 and option_length_bytes < 269: 
+                    if option_length_bytes > 12 and option_length_bytes < 269: 
                         unparsed_fields.append((CoAPFields.OPTION_LENGTH_EXTENDED, Buffer(content=(option_length_bytes-13).to_bytes(length=1, byteorder='little'), length=8, padding=Padding.LEFT)))
                     elif option_length_bytes > 268:
-                        unparsed_fields.append((CoAPFields.OPTION_LENGTH_EXTENDED, Buffer(content=(option_length_bytes-269).to_bytes(length=2, byteorder='little'), length=16, padding=Padding.LEFT)))
+                        unparsed_fields.append((CoAPFields.OPTION_LENGTH_EXTENDED, Buffer(content=(option_length_bytes-269).to_bytes(length=2, byteorder='big'), length=16, padding=Padding.LEFT)))
                         
-                    # option value
-                    unparsed_fields.append((CoAPFields.OPTION_VALUE, field_value))
+                    # option value (an option of length 0 has no value field)
+                    if option_length_bytes > 0:
+                        unparsed_fields.append((CoAPFields.OPTION_VALUE, field_value))
         return unparsed_fields
                                     
                     
